@@ -207,7 +207,7 @@ class NullCtx:
 def shard(ctx):
     rng = ctx.rng
     null = NullCtx(ctx)
-    n = ctx.scale(3200, 100000)
+    n = ctx.scale(12800, 100000)
     for k in range(n):
         ser, triple, claims = c04.one_sequence(null, rng, memo=(k % 4 == 3))
         fresh = roundtrip(ctx, triple, claims, 'call_sequence')
@@ -219,7 +219,7 @@ def shard(ctx):
     # modules
     sc = ctx.mkscratch()
     todo = [(name, f) for name, f in mw.shipped_modules()] if ctx.shard == 0 else []
-    todo += [(f'gen{i}', None) for i in range(ctx.scale(320, 8000))]
+    todo += [(f'gen{i}', None) for i in range(ctx.scale(960, 8000))]
     for name, f in todo:
         try:
             b = mw.Built(f(), {'shipped'}, [name]) if f else mw.random_module(rng)
